@@ -328,11 +328,9 @@ Proof.
   apply never_published_none; [destruct k; reflexivity|exact Hp].
 Qed.
 
-(* `request` guard: a peer that serves a mesh under some id never downloads anything
-   published elsewhere under the same id, whatever its class (defect S12). *)
-Theorem request_guard_ignores_class cs id k :
-  lookup (c_mesh cs) id <> None -> request_starts_download cs k id = false.
-Proof. unfold request_starts_download. destruct (lookup (c_mesh cs) id); congruence. Qed.
+(* `request`: an announced asset is always fetched, whatever this peer serves itself. *)
+Theorem request_always_starts_download cs id k : request_starts_download cs k id = true.
+Proof. reflexivity. Qed.
 
 (* non-vacuity: a concrete interleaved history meets the hypotheses of the main theorem *)
 Example C14_nonvacuous :
